@@ -13,6 +13,7 @@ import translate_glue
 import translate_ctor
 import translate_trig
 import translate_context
+import translate_tmcmc
 
 
 def gen_arith():
@@ -63,4 +64,8 @@ def gen_ctx():
     return translate_context.translate(os.path.join(PKG, "pba/context.py"))
 
 
-ALL = [("GenCtx", gen_ctx), ("GenTrig", gen_trig), ("GenCtor", gen_ctor), ("GenGlue", gen_glue), ("GenKernels", gen_kernels), ("GenFree", gen_free), ("GenParametric", gen_parametric), ("GenDispatch", gen_dispatch), ("GenArith", gen_arith), ("GenParams", gen_params), ("GenHedge", gen_hedge), ("GenKS", gen_ks)]
+def gen_tmcmc():
+    return translate_tmcmc.translate(os.path.join(PKG, "calibration/tmcmc.py"))
+
+
+ALL = [("GenTMCMC", gen_tmcmc), ("GenCtx", gen_ctx), ("GenTrig", gen_trig), ("GenCtor", gen_ctor), ("GenGlue", gen_glue), ("GenKernels", gen_kernels), ("GenFree", gen_free), ("GenParametric", gen_parametric), ("GenDispatch", gen_dispatch), ("GenArith", gen_arith), ("GenParams", gen_params), ("GenHedge", gen_hedge), ("GenKS", gen_ks)]
